@@ -363,3 +363,12 @@ claim(
     "abstract interpretation of the recorder pipeline with symbolic record values, exhaustive over the property's finite index domain; rational identity against the interpolation formula",
     "DESIGN.md §6 (moved from not-applicable) / §7",
 )
+
+claim(
+    "C11",
+    "other",
+    "Narrow: equality of two runs up to round-off is not decided. Decided is the structure that makes it true: one step is F' = A F + s with a real matrix and a real source term and no code path depends on the storage type, so the real part is the real-valued run and a zero imaginary part stays zero. On the scenes of C10 (all material tiers, conductivities, non-uniform metric, CPML, PEC / PMC walls, zero-phase periodic faces, three switched sources) every output of `forward` — E, H, every CPML memory — is a degree-one polynomial of the state symbols whose coefficients contain neither the imaginary unit nor abs / conj / real / imag / angle of a state symbol (these are kept opaque on state symbols); plane-source increments are real for real and complex incident profiles; the Bloch halo correction with a zero vector is the identity; no function of the time loop, of a boundary hook or of a detector update tests the complexness of a field (who-may-branch, with an inventory of the tests that do exist); _init_arrays allocates E, H and every CPML memory with complex64 / complex128 according to the real dtype when complex fields are requested or required, rejects use_complex_fields=False with a non-zero Bloch vector (12 combinations).",
+    TB + "; a real-coefficient polynomial acts separately on real and imaginary parts; abstract source model of C10; prefix slicing of _init_arrays",
+    "abstract interpretation over a stencil domain with non-holomorphic operations kept opaque; degree / coefficient-field analysis; who-may-branch rule on the syntax tree; decision table of the allocation prefix",
+    "DESIGN.md §6 (moved from not-applicable)",
+)
